@@ -313,7 +313,8 @@ def choose_point_in_triangle(triangle: np.ndarray, max_badness: int) -> np.ndarr
         The x and y coordinate of the suggested new point.
     """
     a, b, c = triangle
-    area = 0.5 * np.cross(b - a, c - a)
+    ab, ac = b - a, c - a
+    area = 0.5 * (ab[0] * ac[1] - ab[1] * ac[0])
     triangle_roll = np.roll(triangle, 1, axis=0)
     edge_lengths = np.linalg.norm(triangle - triangle_roll, axis=1)
     i = edge_lengths.argmax()
